@@ -75,6 +75,10 @@ func (o op) coq() string {
 		return fmt.Sprintf("OUpdSaved %d %s", o.M, coqfmt.Z(o.Now))
 	case "UpdFinish":
 		return fmt.Sprintf("OUpdFinish %d", o.M)
+	case "UpdRead":
+		return fmt.Sprintf("OUpdRead %d %s", o.M, coqfmt.Z(o.Now))
+	case "UpdRest":
+		return fmt.Sprintf("OUpdRest %d %s", o.M, outs[o.Out])
 	case "Set":
 		return fmt.Sprintf("OSet %d %s %s", o.M, coqfmt.ZU(o.TS), outs[o.Out])
 	case "SetBegin":
@@ -504,7 +508,13 @@ func (g *gen) pickTS(m int) (uint64, string) {
 	if !st.init {
 		base = time.Now().UnixNano() / 1e6
 	}
-	switch g.r.Pick(10, 10, 10, 25, 25, 10, 10) {
+	switch g.r.Pick(10, 10, 10, 25, 25, 10, 10, 12) {
+	case 7:
+		// the last (partial) millisecond below the stored window, or the one before
+		if wv := g.w.window(); wv != nil && *wv/1e6 > base {
+			return compose(*wv/1e6-int64(g.r.Intn(2)), int64(g.r.Intn(50))), "last-millisecond-below-window"
+		}
+		return compose(base+int64(1+g.r.Intn(3)), int64(g.r.Intn(50))), "inside-window"
 	case 0:
 		return compose(base-int64(1+g.r.Intn(50)), int64(g.r.Intn(100))), "smaller-physical"
 	case 1:
@@ -710,6 +720,11 @@ func runCase(e *etcdx.Etcd, admin *clientv3.Client, root string, r *rng.R, fixed
 				}
 				continue
 			}
+			if o.K == "Set" && o.TS == 0 && o.Rel == "last-millisecond-below-window" {
+				if wv := w.window(); wv != nil {
+					o.TS = compose(*wv/1e6, 20)
+				}
+			}
 			if o.K == "SetRace" {
 				// SetTSO started while an update is parked inside the save section: with the save mutex it
 				// waits for the update (and is recorded after it); without it, it runs at once
@@ -789,6 +804,12 @@ func scenarios() [][]op {
 		{{K: "Elect", M: 0}, {K: "Sync", M: 0}, {K: "Gen", M: 0, Count: 1}, {K: "ResetGroup", M: 0},
 			{K: "Elect", M: 1}, {K: "Sync", M: 1}, {K: "Set", M: 1, TS: far(), Rel: "one-hour-ahead"}, {K: "Gen", M: 1, Count: 100}, {K: "Read"}, {K: "ResetGroup", M: 1},
 			{K: "Elect", M: 0}, {K: "Sync", M: 0}, {K: "State", M: 0}, {K: "Read"}, {K: "Gen", M: 0, Count: 5}, {K: "State", M: 0}, {K: "Read"}},
+		// a reset into the last partial millisecond below the stored window, timestamps granted there, then a take-over by a
+		// member whose clock is still behind the window: the successor has to start above (the guard margins of the
+		// window checks and of SyncTimestamp cover the nanosecond -> millisecond truncation of granted timestamps)
+		{{K: "Elect", M: 0}, {K: "Sync", M: 0}, {K: "Gen", M: 0, Count: 1}, {K: "Read"},
+			{K: "Set", M: 0, Rel: "last-millisecond-below-window"}, {K: "State", M: 0}, {K: "Read"}, {K: "Gen", M: 0, Count: 30}, {K: "Read"}, {K: "ResetGroup", M: 0},
+			{K: "Elect", M: 1}, {K: "Sync", M: 1}, {K: "State", M: 1}, {K: "Read"}, {K: "Gen", M: 1, Count: 10}, {K: "Read"}},
 		// unacknowledged reset save (recorded finding): SetTSO(+1h) applied but reported failed, then a periodic save
 		{{K: "Elect", M: 0}, {K: "Sync", M: 0}, {K: "Read"}, {K: "Set", M: 0, TS: far(), Rel: "one-hour-ahead", Out: 2}, {K: "Read"},
 			{K: "Sleep", Us: 6000}, {K: "Upd", M: 0}, {K: "State", M: 0}, {K: "Read"}},
@@ -810,17 +831,23 @@ type gateCore struct {
 	armed   bool
 	parked  chan struct{}
 	release chan struct{}
+	now     int64 // the "now" field of the line that was hit (UnixNano), when it has one
 }
 
 func (c *gateCore) With([]zapcore.Field) zapcore.Core { return c }
 func (c *gateCore) Check(e zapcore.Entry, ce *zapcore.CheckedEntry) *zapcore.CheckedEntry {
 	return ce.AddCore(e, c)
 }
-func (c *gateCore) Write(e zapcore.Entry, _ []zapcore.Field) error {
+func (c *gateCore) Write(e zapcore.Entry, fields []zapcore.Field) error {
 	c.mu.Lock()
 	hit := c.armed && strings.Contains(e.Message, c.msg)
 	if hit {
 		c.armed = false
+		for _, f := range fields {
+			if f.Key == "now" && f.Type == zapcore.TimeType {
+				c.now = f.Integer
+			}
+		}
 	}
 	c.mu.Unlock()
 	if hit {
@@ -1088,6 +1115,67 @@ func delayedWindowWriteProbe(e *etcdx.Etcd, admin *clientv3.Client, root string,
 		}
 		return
 	}
+}
+
+// updateReadRaceCase (run alone, after the workers: it replaces the process-wide logger): the periodic update is stopped
+// right after it read the memory and the clock (a zap core blocks on its "clock offset" line, which also tells the clock
+// reading), a reset into the very millisecond of that reading is accepted and timestamps are granted, then the update
+// continues: setTSOPhysical must not treat a later instant of the SAME millisecond as an advance (the logical part would
+// restart at 0 in a millisecond that has already handed out values). The history is replayed by Coq like any other case.
+func updateReadRaceCase(e *etcdx.Etcd, admin *clientv3.Client, root string) (caseRec, bool) {
+	w := &world{e: e, admin: admin, root: root}
+	defer e.CloseFrom(e.Mark())
+	for i := 0; i < 2; i++ {
+		w.mems = append(w.mems, w.newMember(i))
+	}
+	tso.VerifSetMaxRetry(retries)
+	var c caseRec
+	do := func(o op) string {
+		b := w.exec(&o)
+		c.Ops = append(c.Ops, o)
+		c.Obs = append(c.Obs, b)
+		return b
+	}
+	x := w.mems[0]
+	if do(op{K: "Elect", M: 0}) != "BOk" || do(op{K: "Sync", M: 0}) != "BOk" {
+		return c, false
+	}
+	do(op{K: "Gen", M: 0, Count: 1})
+	do(op{K: "Read"})
+	time.Sleep(4 * time.Millisecond) // more than 3 update intervals: the update logs "clock offset"
+	gate := &gateCore{LevelEnabler: zapcore.WarnLevel, msg: "clock offset", parked: make(chan struct{}, 1), release: make(chan struct{}, 1), armed: true}
+	log.ReplaceGlobals(zap.New(gate), nil)
+	defer srv15.Quiet()
+	done := make(chan error, 1)
+	go func() { done <- w.safe("UpdateTSO", x.alloc.UpdateTSO) }()
+	select {
+	case <-gate.parked:
+	case <-done:
+		return c, false
+	case <-time.After(5 * time.Second):
+		return c, false
+	}
+	c.Ops = append(c.Ops, op{K: "UpdRead", M: 0, Now: gate.now})
+	c.Obs = append(c.Obs, "BStarted")
+	st := x.state()
+	do(op{K: "Set", M: 0, TS: compose(gate.now/1e6, st.logical+1000), Rel: "millisecond-of-an-update-in-flight"})
+	do(op{K: "State", M: 0})
+	do(op{K: "Read"})
+	do(op{K: "Gen", M: 0, Count: 3})
+	gate.release <- struct{}{}
+	err := <-done
+	c.Ops = append(c.Ops, op{K: "UpdRest", M: 0})
+	if err != nil {
+		x.am.ResetAllocatorGroup(tso.GlobalDCLocation)
+		c.Obs = append(c.Obs, "BErr")
+	} else {
+		c.Obs = append(c.Obs, "BOk")
+	}
+	do(op{K: "State", M: 0})
+	do(op{K: "Gen", M: 0, Count: 3})
+	do(op{K: "Read"})
+	do(op{K: "ResetGroup", M: 0})
+	return c, !w.ambig && w.panicked == ""
 }
 
 // raceReset: a reset into the current millisecond whose check-to-write span is stretched by a parked window save, while
@@ -1526,6 +1614,10 @@ func main() {
 				}
 				overflowRace(e, admin, "/c01/overflow", R, *prop)
 				delayedWindowWriteProbe(e, admin, "/c01/delayed/r", R, *prop)
+				if c, ok := updateReadRaceCase(e, admin, "/c01/updread/r"); ok {
+					results = append(results, &c)
+					R.Count("update-read-race:case")
+				}
 			}
 			e.Close()
 		}
